@@ -5,7 +5,10 @@
    influence (percolation in the ORIGINAL network) of the previous trap space plus the override contains the
    motif, then in the OVERRIDDEN network every attractor reachable from the previous trap space has the
    motif's values.  find_drivers_force: every reported driver set forces.  forced_b is the brute-force
-   decision procedure run on the implementation's interventions.
+   decision procedure run on the implementation's interventions.  succession_control_sound is the property end to end:
+   for every intervention reported successful on a diagram prepared by the target-directed expansion, the succession is a
+   chain of nested trap spaces from the whole state space, every listed override has the step's motif in its LDOI and
+   forces it, the final trap space meets the target and every minimal trap space inside it lies inside the target.
 
    This file contains only restatements closed by `exact` (statements produced by Coq's own
    `Check` of the library lemma) plus non-vacuity Examples, each followed by Print Assumptions. *)
@@ -14,7 +17,7 @@ Import ListNotations.
 From BB Require Import BN Brute SpaceFacts TrapFacts PercolateFacts AttractorFacts Diagram Invariants Checks Filter
   Strict PetriNet Control Meta FilterFacts PetriNetFacts TrappistFacts DiagramStruct DiagramSem1 DiagramCache
   DiagramDepth DiagramComplete Termination ControlFacts MetaFacts Candidates StrictFacts MinExpandFacts CandidatesFacts SymbolicTest SymbolicTestFacts Signed ReductionFacts ControlFacts2 Main Blocks BlocksFacts ObsFacts OwnerFacts CandidatesTerm
-  PartialOwner BlockMath BlockComplete ASeeds ASeedsFacts LogChecks SkipRule SkipRuleFacts Names NamesFacts Perm PermFacts SCC SCCFacts.
+  PartialOwner BlockMath BlockComplete ASeeds ASeedsFacts LogChecks SkipRule SkipRuleFacts Names NamesFacts Perm PermFacts SCC SCCFacts SCCStruct ControlFacts3.
 
 Theorem C06_override_forces : forall (N : net) (S : space) (d m : list (option bool)), trap_space N S -> length d = nvars N -> length m = nvars N -> compatible d S -> subspace (percolate_b N (merge d S)) m = true -> forced (override N d) S m.
 Proof. exact override_forces. Qed.
@@ -36,9 +39,24 @@ Proof. exact find_drivers_avoid_assume. Qed.
 Theorem C06_percolation_of_trap_is_nested_trap : forall (N : net) (S : space), trap_space N S -> trap_space N (percolate_b N S) /\ subspace (percolate_b N S) S = true.
 Proof. exact percolate_b_trap. Qed.
 
+(* C06 end to end *)
+Theorem C06_succession_control_sound : forall (N : net) (d : sd) (target : list (option bool)) (all_strategy : bool) (maxd : option nat) (forbidden : list nat) (succ : list space) (ctl : list (list space)), PlainInv N d -> length target = nvars N -> TargetExpanded target d -> In (succ, ctl, true) (succession_control N d target all_strategy maxd forbidden) -> let spaces := chain N succ (top_space (nvars N)) in length ctl = length succ /\ (forall i : nat, i < length succ -> trap_space N (nth i spaces []) /\ trap_space N (nth (S i) spaces []) /\ subspace (nth (S i) spaces []) (nth i spaces []) = true /\ nth i ctl [] <> [] /\ (forall drv : space, In drv (nth i ctl []) -> subspace (percolate_b N (merge drv (nth i spaces []))) (nth i succ []) = true /\ forced (override N drv) (nth i spaces []) (nth i succ []))) /\ intersect (last spaces []) target <> None /\ (forall M : space, min_trap N M -> subspace M (last spaces []) = true -> subspace M target = true).
+Proof. exact succession_control_sound. Qed.
+
+(* the target-directed expansion of a fresh diagram establishes the hypotheses *)
+Theorem C06_target_expansion_prepares : forall (fuel : nat) (N : net) (cfg : config) (target : list (option bool)) (d' : sd), 1 <= max_motifs cfg -> length target = nvars N -> expand_to_target fuel N cfg (init N) target None = (d', RBool true) -> PlainInv N d' /\ TargetExpanded target d'.
+Proof. exact target_expansion_TargetExpanded. Qed.
+
+(* the accumulated assumptions are the node spaces along the path *)
+Theorem C06_chain_follows_path : forall (N : net) (d : sd) (s : nat) (es : list edge) (succ : list space), PlainInv N d -> epath d 0 s es -> choice d es succ -> es <> [] -> last (chain N succ (top_space (nvars N))) [] = n_space (get d s).
+Proof. exact chain_follows_path. Qed.
+
 Print Assumptions C06_override_forces.
 Print Assumptions C06_override_forces_code.
 Print Assumptions C06_find_drivers_force.
 Print Assumptions C06_forced_b_spec.
 Print Assumptions C06_find_drivers_avoid_assume.
 Print Assumptions C06_percolation_of_trap_is_nested_trap.
+Print Assumptions C06_succession_control_sound.
+Print Assumptions C06_target_expansion_prepares.
+Print Assumptions C06_chain_follows_path.
